@@ -70,3 +70,11 @@ Fixpoint no_redundant (st : dstate) (ops : list dop) : bool :=
   | [] => true
   | op :: r => (match op with DDis i => negb (mem i (d_slots st)) | _ => true end) && no_redundant (fst (set_status st op)) r
   end.
+
+(* ---- (D)TLS <= 1.2 key-exchange curve and signature algorithm *)
+Definition first_enabled_in (cfg : N) (l : list N) : option N := find (fun g => curve_enabled g cfg) l.
+(* the curve an ECDHE ServerKeyExchange may name: listed by the client (or, without the extension, any) and enabled by
+   this server session, compiled in *)
+Definition curve_ok (cfg : N) (groups : option (list N)) (c : N) : Prop :=
+  curve_enabled c cfg = true /\ In c c_ecc_curve_ids /\
+  match groups with Some l => In c l | None => True end.
